@@ -7,6 +7,7 @@ A *case* is {"cfg": {...}, "contents": [content descriptors], "docs": [content d
 import hashlib
 import io
 import os
+import shutil
 from pathlib import Path
 
 from . import common, gen
@@ -345,6 +346,13 @@ class Run:
         if k == "store":
             data = self.contents[op["c"]]
             arg, stream = self.data_arg(op["c"], op.get("kind", "str"), op.get("offset", 0))
+            private_src = None
+            if op.get("clobber_source") and stream is None and op.get("kind", "str") in ("str", "path"):
+                # a private copy of the source file on the store's file system (hard links possible)
+                self._priv = getattr(self, "_priv", 0) + 1
+                private_src = os.path.join(self.src, f"private{self._priv}")
+                shutil.copyfile(self.cpaths[op["c"]], private_src)
+                arg = private_src if op.get("kind", "str") == "str" else Path(private_src)
             pid = op.get("pid")
             add = op.get("add")
             cks_mode, cks_algo = op.get("cks", "none"), op.get("cks_algo")
@@ -390,8 +398,21 @@ class Run:
             if op.get("kind") == "relpath":
                 os.chdir(self.src)
             try:
-                r.out = call(s.store_object, pid, arg, **kwargs) if pid is not None \
-                    else call(s.store_object, None, arg)
+                if pid is None and op.get("nopid_args"):
+                    # validation arguments next to pid=None: the pinned interface ignores them (only data is stored)
+                    true_md5 = hashlib.md5(data).hexdigest()
+                    wrong = op["nopid_args"] == "wrong"
+                    r.out = call(s.store_object, None, arg, checksum=gen.flip_nibble(true_md5, 3) if wrong else true_md5,
+                                 checksum_algorithm="md5", expected_object_size=len(data) + 7 if wrong else max(1, len(data)))
+                elif pid is not None:
+                    r.out = call(s.store_object, pid, arg, **kwargs)
+                else:
+                    r.out = call(s.store_object, None, arg)
+                if op.get("clobber_source") and private_src:
+                    # the caller goes on using ITS file: rewritten in place after the call (same length, other bytes)
+                    with open(private_src, "r+b") as f:
+                        f.write(bytes((b ^ 0x5A) for b in data[:65536]) or b"x")
+                    os.remove(private_src)
             finally:
                 os.chdir(cwd)
             if stream is not None:
@@ -405,14 +426,14 @@ class Run:
             r.out = call(s.tag_object, op["pid"], cid)
             r.exp = m.tag(op["pid"], cid)
         elif k == "delete":
-            if op.get("fault") == "marker-remove":
+            if op.get("fault") in ("marker-remove", "marker-remove-all"):
                 # the removal of the first "<name>_delete" marker fails once (EIO): a state with a left-over marker that
                 # the store can be in after an I/O error (only used by checks that do not judge residue)
                 from . import fsi
                 fired = []
 
                 def cb(ev):
-                    if not fired and ev.kind in ("remove", "unlink") and ev.dest.endswith("_delete"):
+                    if (not fired or op["fault"] == "marker-remove-all") and ev.kind in ("remove", "unlink") and ev.dest.endswith("_delete"):
                         fired.append(ev)
                         raise OSError(5, "Input/output error [injected]", ev.dest)
                 with fsi.active(self.root, cb):
